@@ -303,7 +303,7 @@ void OPN2::noteOn(size_t c, double tone)
     // Hertz range: 0..131071
     double hertz = s_commonFreq(tone);
 
-    if(hertz < 0) // Avoid infinite loop
+    if(hertz < 0 || !(hertz <= 131071)) // Avoid infinite loop (also when the tone overflowed to infinity)
         return;
 
     double coef;
